@@ -191,7 +191,9 @@ class CircuitWorld(World):
             npar = self._nparams(label)
             if npar:
                 g["params"] = [round(r.uniform(-math.pi, math.pi), 4) for _ in range(npar)]
-                if cls in EXACT and r.random() < (0.8 if self.knobs.get("params_focus") else 0.45):
+                # the MPS classes do not support parametrized gates: sent
+                # now and then, they must be refused without side effects
+                if r.random() < ((0.8 if self.knobs.get("params_focus") else 0.45) if cls in EXACT else 0.12):
                     g["parametrize"] = True
         qs = r.sample(range(N), nq)
         g["qubits"] = qs
@@ -429,8 +431,6 @@ class CircuitWorld(World):
         g = g or op["gate"]
         if any(q >= c["N"] for q in g["qubits"] + list(g.get("controls") or [])):
             raise Skip()
-        if g.get("parametrize") and c["cls"] not in EXACT:
-            g = {k: v for k, v in g.items() if k != "parametrize"}
         self.gate_matrix(g)  # unitarity of the registered gate for these parameters
         st, res = self.call(self._call_gate(c, g, via or op.get("via", "apply_gate")))
         if st == "rejected":
